@@ -1,3 +1,25 @@
-From WR Require Import Lib.Bits Mpq.Crypt Mpq.MpqRef Props.C02.
+From Coq Require Import NArith List Bool Arith.
+Import ListNotations.
+From WR Require Import Lib.Bits Mpq.Crypt Mpq.MpqRef Proofs.Crypt_proofs Mpq.Archive Mpq.MpqRef Proofs.HashTable_proofs Proofs.Build_proofs Proofs.Interop_proofs Proofs.Interop_example Props.C02.
 Open Scope N_scope.
+
+
 Definition pin_1 : forall ws key, key <> 0 -> key < M32 -> encrypt_block ws key = ref_enc ws key 4008636142 := C02_cipher_agrees_on_dwords.
+Definition pin_2 : forall name ht, ht <= 1024 -> wf_bytes name -> hash_string name ht = ref_hash name ht := C02_hash_agrees.
+Definition pin_3 : forall bs key n, length bs = (4 * n)%nat -> (0 < n)%nat -> key <> 0 -> key < M32 ->
+    encrypt_data bs key = r_crypt true bs key := C02_byte_cipher_agrees_on_whole_dwords.
+Definition pin_4 : encrypt_data [1; 2; 3; 4; 5] 4660 <> r_crypt true [1; 2; 3; 4; 5] 4660 := C02_tail_bytes_differ_refuted.
+Definition pin_5 : forall bs a, open bs = Some a -> ref_open bs = Some (as_ref a) := C02_ref_open_of_open.
+Definition pin_6 : forall (a : archive) (k : N) (name : list N),
+    Forall hplain (a_hash a) -> lenN (a_hash a) = 2 ^ k -> wf_bytes name ->
+    ref_find (as_ref a) name = option_map bentry_words (find_block a name) := C02_ref_find_equiv.
+Definition pin_7 : forall (compress : N -> list N -> option (list N)) (decompress : N -> list N -> N -> option (list N))
+         (c : cfg) (files : list file_spec) (bytes : list N),
+    (c_version c = 1 \/ c_version c = 2) -> c_shift c < 65536 ->
+    build compress c files = BOk bytes -> lenN bytes < M32 ->
+    Forall (file_ok compress decompress (sector_size (c_shift c))) (pending c files) ->
+    NoDup (map hkey (pending c files)) ->
+    (c_attrs c = 1 -> ~ In (hash_string s_attributes ht_name_a, hash_string s_attributes ht_name_b) (map hkey (pending c files))) ->
+    exists ra, ref_open bytes = Some ra /\
+               forall f, In f (pending c files) -> f_enc f = 0 -> wf_bytes (f_name f) ->
+                         ref_read decompress ra (f_name f) = Some (f_data f) := C02_library_archive_read_by_reference.
